@@ -8,6 +8,7 @@
 (*           signing context was alive, and the blocks armed through        *)
 (*           withCancelOnBlock in order (signing deadline; for the failed   *)
 (*           heartbeat also the claim deadline)                             *)
+(*   Sign    one real signingExecutor.sign / signBatch (see TSign)           *)
 (*   Loop    one real signingRetryLoop.start from block `start` with the    *)
 (*           chain at block `current`: for every attempt that ran its       *)
 (*           number k, the timeout block given to the done check, the       *)
@@ -20,6 +21,7 @@ tvars == <<vars, l>>
 
 TInit ==
     /\ act \in Actions /\ start = 0 /\ phase = "proposed" /\ now = 0 /\ attempt = 0
+    /\ msg = 0 /\ mstart = 0 /\ lastAnn = 0
     /\ act = CHOOSE a \in Actions : TRUE
     /\ l = 1 /\ HwmInit
 
@@ -42,6 +44,7 @@ TAction ==
           /\ (PostKind[a] = "claim" => e.armed[2] = Expiry(a, s) - ClaimEndMargin)
           /\ act' = a /\ start' = s /\ phase' = "signing" /\ attempt' = 1
           /\ now' = e.signStart
+          /\ msg' = 1 /\ mstart' = e.signStart /\ lastAnn' = e.signStart
 
 LoopAttemptStart(s, k) == s + (k - 1) * AttemptMaxBlocks
 
@@ -72,7 +75,29 @@ TLoop ==
           /\ LoopAttemptStart(s, AttemptsLimit + 1) = s + LoopBlocks
     /\ UNCHANGED vars
 
-TNext == TReset \/ TAction \/ TLoop
+(* one real signingExecutor.sign / signBatch call with all peers offline     *)
+(* (every attempt fails at its announcement): the message's start block, the *)
+(* block at which the caller's signing context was cancelled through the     *)
+(* real withCancelOnBlock, the block of every readiness announcement the     *)
+(* node broadcast and the block at which the call returned                   *)
+TSign ==
+    /\ IsEvent("Sign")
+    /\ LET e == Trace[l]
+           ms == e.mstart
+           D == e.deadline
+           n == Len(e.anns)
+           due == { k \in 1..AttemptsLimit : MAnnStart(ms, k) <= D }
+       IN \* every attempt that can start before the deadline is announced, at its block
+          /\ n = Cardinality(due)
+          /\ \A i \in 1..n : e.anns[i] = MAnnStart(ms, i)
+          \* nothing is announced once the signing context is cancelled
+          /\ \A i \in 1..n : e.anns[i] <= D
+          \* the call returns when the loop times out or at the deadline, whichever is first
+          /\ e.returned = (IF MLoopEnd(ms) <= D THEN MLoopEnd(ms) ELSE D)
+          /\ e.failed
+    /\ UNCHANGED vars
+
+TNext == TReset \/ TAction \/ TLoop \/ TSign
 TSpec == TInit /\ [][TNext]_tvars
 
 Hwm == HwmConstraint(l)
